@@ -247,6 +247,7 @@ impl GraphEngine {
             sealed_runs: Vec::new(),
             view_labels: None,
             mark: StatementMark::default(),
+            pending_vectors: Vec::new(),
         }
     }
 
@@ -863,6 +864,8 @@ pub struct WriteTxn<'a> {
     view_labels: Option<(Arc<Vec<Vec<LabelId>>>, StatementMark)>,
     /// Node bookkeeping at the last statement boundary.
     mark: StatementMark,
+    /// Vectors take effect at commit: the index writes its own pages and has no undo.
+    pending_vectors: Vec<(InternalNodeId, Vec<f32>)>,
 }
 
 /// Sizes of a transaction's node bookkeeping at a statement boundary.
@@ -1129,7 +1132,8 @@ impl<'a> WriteTxn<'a> {
 
     // T203: HNSW Support
     pub fn set_vector(&mut self, id: InternalNodeId, vector: Vec<f32>) -> Result<()> {
-        self.engine.insert_vector(id, vector)
+        self.pending_vectors.push((id, vector));
+        Ok(())
     }
 
     pub fn commit(mut self) -> Result<()> {
@@ -1423,6 +1427,11 @@ impl<'a> WriteTxn<'a> {
             for (node, label_id) in self.pending_label_removals {
                 idmap.apply_remove_label(&mut pager, node, label_id)?;
             }
+        }
+
+        // The transaction is committed: its vectors may enter the index now.
+        for (id, vector) in self.pending_vectors {
+            self.engine.insert_vector(id, vector)?;
         }
 
         #[cfg(luqing_studio_nervusdb_verif)]
